@@ -9,7 +9,7 @@ from . import plug
 
 RULE = {
     "C17": "(a) scenario = a child writing 0-6 lines (7 texts incl. empty, trailing/leading blanks, tabs) spread over stdout/stderr "
-           "with optional pauses, exit status in {0,1,3,255}, exit delay 0-1.5 s, idle timeout 0.8/5 s, optional stop() by the "
+           "with optional pauses, exit status in {0,1,3,255} or death by a signal of its own (-15, -11; a killed child reports -9), exit delay 0-1.5 s, idle timeout 0.8/5 s, optional stop() by the "
            "program at 0/0.1/0.6 s, consumer draining during or after; real Process/_reader/_monitor/_writer/join/kill as real "
            "mo_threads Threads over a scripted Popen stub whose pipes reach EOF exactly at exit/kill; virtual clock; non-trivial = "
            ">=1 pre-emption; distinct = (scenario, schedule) hash.  (b) real children: sh -c and python children printing 0-400 "
@@ -31,7 +31,8 @@ class M8(plug.Model):
         return m8_process.shape(sc)
 
     def header(self, sc):
-        return "script=%s status=%d" % (",".join("%d:%d" % (c[0], j) for j, c in enumerate(sc["chunks"])), sc["status"])
+        from . import m8_process
+        return "script=%s status=%d" % (",".join("%d:%d" % (c[0], j) for j, c in enumerate(sc["chunks"])), m8_process.mstat(sc["status"]))
 
     def est_steps(self, sc):
         return 500
